@@ -68,7 +68,9 @@ class RegistryServer(object):
 
     def _remove_service(self, name, addrinfo):
         """removes a single server of the given service"""
-        self.services[name].pop(addrinfo, None)
+        if addrinfo not in self.services[name]:
+            return
+        del self.services[name][addrinfo]
         if not self.services[name]:
             del self.services[name]
         try:
